@@ -146,8 +146,9 @@ def run_check(prop, rules, tier="quick", level="other", explanation="",
         "wall_s": round(wall, 3), "violations": len(violations),
     }
     if not replay:
-        os.makedirs(os.path.join(VERIF, "evidence"), exist_ok=True)
-        with open(os.path.join(VERIF, "evidence", prop + ".json"), "w") as fd:
+        evdir = os.environ.get("SA_EVIDENCE_DIR") or os.path.join(VERIF, "evidence")
+        os.makedirs(evdir, exist_ok=True)
+        with open(os.path.join(evdir, prop + ".json"), "w") as fd:
             json.dump(evidence, fd, indent=1, sort_keys=True)
             fd.write("\n")
     # verdict
@@ -168,8 +169,9 @@ def run_check(prop, rules, tier="quick", level="other", explanation="",
     if errors and not violations:
         return 2
     if violations:
-        os.makedirs(os.path.join(VERIF, "replay"), exist_ok=True)
-        path = os.path.join(VERIF, "replay", "%s.json" % prop)
+        rdir = os.path.join(os.environ["SA_EVIDENCE_DIR"], "replay") if os.environ.get("SA_EVIDENCE_DIR") else os.path.join(VERIF, "replay")
+        os.makedirs(rdir, exist_ok=True)
+        path = os.path.join(rdir, "%s.json" % prop)
         if not replay:
             with open(path, "w") as fd:
                 json.dump({"property": prop, "violations": violations}, fd, indent=1)
@@ -177,15 +179,20 @@ def run_check(prop, rules, tier="quick", level="other", explanation="",
         for v in violations:
             key = (v["rule"], v["file"], v["line"], v["construct"])
             seen_v.setdefault(key, []).append(v)
+        per_rule = {}
+        hidden = 0
         for key, vs in seen_v.items():
-            if shown >= 60:
-                print("  ... %d more distinct violation sites (see replay file)" % (len(seen_v) - shown))
-                break
+            per_rule[key[0]] = per_rule.get(key[0], 0) + 1
+            if per_rule[key[0]] > 12 or shown >= 80:
+                hidden += 1
+                continue
             v = vs[0]
             more = " [+%d more functions/units, e.g. %s]" % (len(vs) - 1, vs[-1]["function"]) if len(vs) > 1 else ""
             print("  %s %s:%s in %s: %s -- %s%s" % (v["rule"], v["file"], v["line"],
                                                    v["function"], v["construct"], v["detail"], more))
             shown += 1
+        if hidden:
+            print("  ... %d more distinct violation sites (see replay file)" % hidden)
         print("VIOLATION property=%s replay=%s" % (prop, path))
         return 1
     print("OK property=%s rules=%d instances=%d wall=%.2fs" % (prop, len(collected), len(examined), wall))
